@@ -34,7 +34,7 @@ CLAUSES = {
     "StepNonNegative": ("C04", "C06"),
     "StepWithinFixedStep": ("C04",),
     "StepNotPastTf": ("C04",),
-    "RejectedStepRestoresState": ("C04",),
+    "RejectedStepRestoresState": ("C04", "C17"),      # C17: no partially updated state is presented as a solution
     "AcceptedStepWithinTol": ("C04",),
     "ResumedEqualsUninterrupted": ("C14",),
     "ResumedFiresSameEvents": ("C14",),
